@@ -40,6 +40,9 @@ INT_FILL = -9223372036854775808
 
 def use_repo():
     """Make ``import uxarray`` resolve to the tree under test (wins over the editable install)."""
+    if not (REPO / "uxarray" / "__init__.py").exists():
+        # never fall back silently to another tree (e.g. the editable install of /repo)
+        raise RuntimeError(f"tree under test not found: {REPO}/uxarray (VERIF_REPO={os.environ.get('VERIF_REPO')!r})")
     p = str(REPO)
     if p in sys.path:
         sys.path.remove(p)
